@@ -157,9 +157,9 @@ func genC06(t *rapid.T) ModelCase {
 
 func hooksFor(c ModelCase) *diffHooks {
 	if len(c.ClearTerminateAt) == 0 {
-		return &diffHooks{useDb: c.UseDb}
+		return &diffHooks{useDb: c.UseDb, usePo: c.UsePo}
 	}
-	return &diffHooks{useDb: c.UseDb, beforeRequest: func(i int, real *app.Session, m *model.Session) {
+	return &diffHooks{useDb: c.UseDb, usePo: c.UsePo, beforeRequest: func(i int, real *app.Session, m *model.Session) {
 		for _, at := range c.ClearTerminateAt {
 			if at == i && m.Terminated() {
 				clearTerminate(real, m)
